@@ -484,7 +484,18 @@ pub fn guarded_execute(s: &dyn Scenario, params: &Value, want_sample: bool) -> O
             };
             let first = mcmc_sim::sim::take_last_panic().unwrap_or_default();
             let mut o = Outcome::default();
-            o.harness_error = Some(format!("uncaught panic in scenario {}: {} [{}]", s.name(), msg, first));
+            // A panic raised inside the library under test (location under /repo/src) in a scenario that
+            // feeds it only inputs of the property's range and expects no panic is the library's failure,
+            // not the harness's: a violation (no claimed property admits a panic on valid input). A panic
+            // raised anywhere else (harness, seams, dependencies called by the harness) is a harness error.
+            let loc = first.rsplit(" @ ").next().unwrap_or("").to_string();
+            if loc.starts_with("/repo/src/") && !msg.contains("HARNESS-ERROR") {
+                o.nontrivial = true;
+                o.hash = str_hash(&params.to_string());
+                o.violate("panic", &format!("{}:library-panic@{}", s.name(), loc), format!("the library panicked in scenario {}: {}", s.name(), msg));
+            } else {
+                o.harness_error = Some(format!("uncaught panic in scenario {}: {} [{}]", s.name(), msg, first));
+            }
             o
         }
     }
@@ -492,13 +503,37 @@ pub fn guarded_execute(s: &dyn Scenario, params: &Value, want_sample: bool) -> O
 
 /// The work of one child process: runs idx ≡ k (mod n) of every scenario.
 pub fn child_main(prop: &PropertyDef, tier: Tier, seed: u64, k: u64, n: u64) -> Agg {
+    child_run(prop, tier, seed, k, n, None, true, 0).0
+}
+
+/// The child's sequence of runs, optionally only a window of it that ends with the run `stop` =
+/// (scenario, idx): with `scenarios_before` the scenarios listed before the stop scenario are run
+/// in full, and within the stop scenario the runs from `from_idx` on. Returns the outcome of the
+/// stop run. This is what a process-history replay re-executes: a violation that needs state left
+/// behind in the process by earlier runs (a static, a thread-local, a cache inside the library)
+/// does not show when its run is executed alone in a fresh process, but does at the end of the
+/// same sequence of runs.
+pub fn child_run(prop: &PropertyDef, tier: Tier, seed: u64, k: u64, n: u64, stop: Option<(&str, u64)>, scenarios_before: bool, from_idx: u64) -> (Agg, Option<Outcome>) {
     let mut agg = Agg::default();
     for s in &prop.scenarios {
         let total = s.runs(tier);
         let mut idx = k;
+        if let Some((sn, _)) = stop {
+            if s.name() != sn && !scenarios_before {
+                continue;
+            }
+            if s.name() == sn {
+                while idx < from_idx {
+                    idx += n;
+                }
+            }
+        }
+        let viol_before = agg.violations.len();
         while idx < total {
-            // enough failing runs collected: stop exploring (bounds the time spent under a broken tree)
-            if agg.violations.len() >= 24 {
+            // enough failing runs collected in this scenario: go on with the next one (bounds the time spent
+            // under a broken tree; later scenarios may hold the violations that replay in a fresh process)
+            let is_stop = stop.map(|(sn, si)| s.name() == sn && idx == si).unwrap_or(false);
+            if agg.violations.len() >= viol_before + 24 && !(stop.is_some() && stop.unwrap().0 == s.name()) {
                 agg.counters.insert("stopped_early_after_24_violating_runs".into(), 1);
                 break;
             }
@@ -545,11 +580,14 @@ pub fn child_main(prop: &PropertyDef, tier: Tier, seed: u64, k: u64, n: u64) -> 
                 agg.harness_errors.push(e.clone());
             }
             for v in &o.violations {
-                if agg.violations.len() < 64 {
+                if agg.violations.len() < viol_before + 24 {
                     agg.violations.push((s.name().to_string(), idx, params.clone(), v.clone()));
                 }
             }
             *agg.counters.entry("max_schedule_len".into()).or_insert(0) = (*agg.counters.get("max_schedule_len").unwrap_or(&0)).max(o.counters.get("schedule_len").copied().unwrap_or(0));
+            if is_stop {
+                return (agg, Some(o));
+            }
             if let Some(sm) = o.sample {
                 if agg.samples.len() < 4 {
                     agg.samples.push(json!({"scenario": s.name(), "idx": idx, "params": params, "run": sm}));
@@ -557,8 +595,13 @@ pub fn child_main(prop: &PropertyDef, tier: Tier, seed: u64, k: u64, n: u64) -> 
             }
             idx += n;
         }
+        if let Some((sn, _)) = stop {
+            if s.name() == sn {
+                break;
+            }
+        }
     }
-    agg
+    (agg, None)
 }
 
 // ---------------------------------------------------------------------------------------------
@@ -658,10 +701,14 @@ pub fn minimise_schedule(s: &dyn Scenario, params: &Value, class: &str, budget_s
 }
 
 pub fn write_replay(prop: &str, scen: &str, seed: u64, idx: u64, params: &Value, v: &Violation, src_fp: &str) -> PathBuf {
+    write_replay_h(prop, scen, seed, idx, params, v, src_fp, None)
+}
+
+pub fn write_replay_h(prop: &str, scen: &str, seed: u64, idx: u64, params: &Value, v: &Violation, src_fp: &str, history: Option<Value>) -> PathBuf {
     let dir = verif_dir().join("replays");
     let _ = std::fs::create_dir_all(&dir);
-    let path = dir.join(format!("{prop}-{scen}-{seed}-{idx}-{:08x}.json", str_hash(&v.class) as u32));
-    let doc = json!({
+    let path = dir.join(format!("{prop}-{scen}-{seed}-{idx}-{:08x}{}.json", str_hash(&v.class) as u32, if history.is_some() { "-history" } else { "" }));
+    let mut doc = json!({
         "property": prop,
         "scenario": scen,
         "verif_seed": seed,
@@ -671,6 +718,9 @@ pub fn write_replay(prop: &str, scen: &str, seed: u64, idx: u64, params: &Value,
         "source_fingerprint": src_fp,
         "replay": format!("bin/check --replay {}", path.display()),
     });
+    if let Some(h) = history {
+        doc["history"] = h;
+    }
     let mut f = std::fs::File::create(&path).expect("HARNESS-ERROR: cannot write replay file");
     f.write_all(serde_json::to_string_pretty(&doc).unwrap().as_bytes()).unwrap();
     path
@@ -697,7 +747,24 @@ pub fn replay_main(props: &[PropertyDef], file: &str) -> i32 {
         return 2;
     };
     let want = Violation::from_json(&doc["violation"]);
-    let o = guarded_execute(s, &doc["params"], true);
+    let o = if doc["history"].is_object() {
+        // process-history replay: the child's sequence of runs (or the recorded window of it) ending with this run
+        let h = &doc["history"];
+        let tier = if h["tier"].as_str() == Some("thorough") { Tier::Thorough } else { Tier::Quick };
+        let (k, n) = (h["k"].as_u64().unwrap_or(0), h["n"].as_u64().unwrap_or(1).max(1));
+        let stop_idx = doc["run_index"].as_u64().unwrap_or(0);
+        let seed = doc["verif_seed"].as_u64().unwrap_or(0);
+        println!("process-history replay: runs {}.. (step {n}) of scenario {}{} up to run {stop_idx}", h["from_idx"].as_u64().unwrap_or(0), s.name(), if h["scenarios_before"].as_bool().unwrap_or(false) { " after the scenarios listed before it" } else { "" });
+        match child_run(prop, tier, seed, k, n, Some((s.name(), stop_idx)), h["scenarios_before"].as_bool().unwrap_or(false), h["from_idx"].as_u64().unwrap_or(0)).1 {
+            Some(o) => o,
+            None => {
+                eprintln!("HARNESS-ERROR: the recorded history does not reach run {stop_idx}");
+                return 2;
+            }
+        }
+    } else {
+        guarded_execute(s, &doc["params"], true)
+    };
     if let Some(e) = &o.harness_error {
         eprintln!("HARNESS-ERROR: {e}");
         return 2;
@@ -815,13 +882,16 @@ pub fn parent_main(prop: &PropertyDef, all_props_bin: &Path, opts: &ParentOpts) 
     // ---- violations: known findings, shrinking, replay files --------------------------------
     let known = load_known_findings(&verif_dir().join("known_findings.txt"));
     let mut known_hit: BTreeMap<String, String> = BTreeMap::new();
-    let mut new_classes: BTreeMap<(String, String), (u64, Value, Violation)> = BTreeMap::new();
+    let mut new_classes: BTreeMap<(String, String), Vec<(u64, Value, Violation)>> = BTreeMap::new();
     agg.violations.sort_by(|a, b| (a.0.clone(), a.1).cmp(&(b.0.clone(), b.1)));
     for (scen, idx, params, v) in &agg.violations {
         if let Some(kf) = known.iter().find(|kf| kf.property == prop.id && kf.key == v.key) {
             known_hit.entry(kf.key.clone()).or_insert_with(|| kf.text.clone());
         } else {
-            new_classes.entry((scen.clone(), v.class.clone() + "#" + &v.key)).or_insert((*idx, params.clone(), v.clone()));
+            let e = new_classes.entry((scen.clone(), v.class.clone() + "#" + &v.key)).or_default();
+            if e.len() < 6 && e.iter().all(|c| c.0 != *idx) {
+                e.push((*idx, params.clone(), v.clone()));
+            }
         }
     }
     for (key, text) in &known_hit {
@@ -829,29 +899,70 @@ pub fn parent_main(prop: &PropertyDef, all_props_bin: &Path, opts: &ParentOpts) 
     }
     let mut violation_lines = vec![];
     let mut n_reported = 0;
-    for ((scen, _), (idx, params, v)) in &new_classes {
+    let fresh = |path: &Path| -> Option<i32> {
+        std::process::Command::new(all_props_bin).arg("--replay").arg(path).stdout(std::process::Stdio::null()).stderr(std::process::Stdio::null()).status().ok().and_then(|s| s.code())
+    };
+    for ((scen, _), cands) in &new_classes {
         if n_reported >= 5 {
             break;
         }
         n_reported += 1;
         let Some(s) = find_scenario(prop, scen) else { continue };
-        let (small, small_v) = shrink(s, params, &v.class, 45.0);
-        let (mut rp, rv) = if small_v.detail == "not reproduced in parent" { (params.clone(), v.clone()) } else { (small, small_v) };
-        // second stage for scheduler-driven runs: store the explicit, simplified schedule
-        if let Some(min) = minimise_schedule(s, &rp, &rv.class, 20.0) {
-            rp = min;
+        // (1) a candidate run of this class that reproduces when executed alone in a fresh process
+        let mut done = false;
+        for (idx, params, v) in cands {
+            let raw = write_replay(prop.id, scen, opts.seed, *idx, params, v, &opts.src_fp);
+            if fresh(&raw) != Some(1) {
+                let _ = std::fs::remove_file(&raw);
+                continue;
+            }
+            let (small, small_v) = shrink(s, params, &v.class, 45.0);
+            let (mut rp, rv) = if small_v.detail == "not reproduced in parent" { (params.clone(), v.clone()) } else { (small, small_v) };
+            // second stage for scheduler-driven runs: store the explicit, simplified schedule
+            if let Some(min) = minimise_schedule(s, &rp, &rv.class, 20.0) {
+                rp = min;
+            }
+            let path = write_replay(prop.id, scen, opts.seed, *idx, &rp, &rv, &opts.src_fp);
+            // replay the minimised file in a fresh process before reporting; keep the unminimised one otherwise
+            let (path, rv) = if fresh(&path) == Some(1) { (path, rv) } else { (write_replay(prop.id, scen, opts.seed, *idx, params, v, &opts.src_fp), v.clone()) };
+            println!("violation: scenario={} class={} key={} detail={}", scen, rv.class, rv.key, rv.detail);
+            violation_lines.push(format!("VIOLATION property={} replay={}", prop.id, path.display()));
+            done = true;
+            break;
         }
-        let path = write_replay(prop.id, scen, opts.seed, *idx, &rp, &rv, &opts.src_fp);
-        // replay once in a fresh process before reporting
-        let st = std::process::Command::new(all_props_bin).arg("--replay").arg(&path).stdout(std::process::Stdio::null()).stderr(std::process::Stdio::null()).status();
-        match st {
-            Ok(st) if st.code() == Some(1) => {
-                println!("violation: scenario={} class={} key={} detail={}", scen, rv.class, rv.key, rv.detail);
+        if done {
+            continue;
+        }
+        // (2) no run of this class reproduces alone: the violation needs state that earlier runs left
+        // behind in the process. Replay the child's own sequence of runs up to the first candidate:
+        // shortest window first (the k runs just before it, k = 1, 2, 4, ... within the scenario),
+        // at last the whole history including the scenarios run before.
+        let (idx, params, v) = &cands[0];
+        let (k, n) = (idx % opts.workers, opts.workers);
+        let mut windows: Vec<(bool, u64)> = vec![];
+        let mut back = 1u64;
+        while back * n <= *idx && back <= 4096 {
+            windows.push((false, idx - back * n));
+            back *= 2;
+        }
+        windows.push((false, 0));
+        windows.push((true, 0));
+        let mut found = None;
+        for (before, from) in windows {
+            let h = json!({"tier": opts.tier.name(), "k": k, "n": n, "from_idx": from, "scenarios_before": before,
+                "note": "this violation does not show when its run is executed alone in a fresh process: it needs state left behind in the process by the earlier runs of this window (hidden state inside the library)"});
+            let path = write_replay_h(prop.id, scen, opts.seed, *idx, params, v, &opts.src_fp, Some(h));
+            if fresh(&path) == Some(1) {
+                found = Some((path, if before { "all".to_string() } else { ((idx - from) / n).to_string() }));
+                break;
+            }
+        }
+        match found {
+            Some((path, runs_before)) => {
+                println!("violation: scenario={} class={} key={} detail=[needs the {} runs executed before it in the same process] {}", scen, v.class, v.key, runs_before, v.detail);
                 violation_lines.push(format!("VIOLATION property={} replay={}", prop.id, path.display()));
             }
-            other => {
-                hard_errors.push(format!("violation of class {} (scenario {scen}, idx {idx}) did not reproduce in a fresh process ({other:?}); replay file {}", v.class, path.display()));
-            }
+            None => hard_errors.push(format!("violation of class {} (scenario {scen}, idx {idx}) reproduces neither alone nor at the end of its process history in a fresh process", v.class)),
         }
     }
 
